@@ -43,6 +43,11 @@ def main():
         res["demo_without"] = r0.returncode
         ap = sh(f"git -C {wt} apply {src / 'patch.diff'}")
         if ap.returncode:
+            # /repo has moved on since the change was cut (fix: commits): fall back to a 3-way merge
+            ap = sh(f"git -C {wt} apply -3 {src / 'patch.diff'}")
+            if not ap.returncode and sh(f"git -C {wt} diff --name-only --diff-filter=U").stdout.strip():
+                ap.returncode = 1
+        if ap.returncode:
             print("PATCH DOES NOT APPLY", ap.stderr); return 2
         r1 = subprocess.run(["/venv/bin/python", str(src / "demo.py")], capture_output=True, text=True, env=env, cwd=wt)
         res["demo_with"] = r1.returncode
